@@ -46,12 +46,15 @@ BOUNDS = {
         'blockA': 'carbon skeletons and 14 ring / hetero probes <= 4 heavy atoms + every C N O molecule <= 3 heavy atoms; every '
                   'partition with a cut; every assignment {ordinary, share end 0, share end 1} to the cut bonds (at least one '
                   'shared); with and without the pairwise "triangle" marking when an atom is copied into >= 2 fragments; '
-                  '2 renderings; base-graph node orders: all for <= 3 fragments, identity and reversed above',
+                  '2 renderings; base-graph node orders: all for carbon-only molecules <= 3 atoms, two per assignment for the others, one for 4-atom molecules',
         'blockB': '43 library molecules (aromatic, charged, fused rings) x 6 seeded partitions x 3 seeded share subsets',
+        'blockC': 'ladder molecules (2-4 bonds between two fragments, some double): every sixth assignment with >= 2 shared atoms',
+        'thinning': 'molecules with 4 heavy atoms: one rendering and one base-graph order per share assignment',
         'shared_pairs_per_case': '1..6'},
     'thorough': {
         'blockA': 'as quick plus every C N O Cl [N+] [O-] molecule with <= 3 and every C N O molecule with 4 heavy atoms, 3 renderings',
         'blockB': '43 library molecules x 30 seeded partitions x 6 seeded share subsets',
+        'blockC': 'ladder molecules (2-4 bonds between two fragments, some double): every assignment with >= 2 shared atoms',
         'shared_pairs_per_case': '1..8'},
 }
 EXHAUSTIVE = {'quick': False, 'thorough': False}
@@ -99,13 +102,7 @@ def _blockA_mols(tier):
     return [m for m in mols if base._valid(m)]
 
 
-def cases(tier, seed):
-    rng = random.Random(seed * 7368787 + 5)
-    quick = tier == 'quick'
-    n_rend = 2 if quick else 3
-    mols = _blockA_mols(tier)
-    # smallest first: 3 atoms in three fragments is where the triangle lives
-    mols.sort(key=lambda m: len(m['a']))
+def _block_a(mols, rng, n_rend, quick):
     for mol in mols:
         for part in g2.connected_partitions(mol):
             nf = max(part) + 1
@@ -114,17 +111,22 @@ def cases(tier, seed):
             for shares in share_assignments(mol, part):
                 tris = [False, True] if multi_copied(mol, part, shares) else [False]
                 for tri in tris:
-                    rends = [{'starts': [0] * nf}] + list(g2.covering_renderings(mol, part, n_rend - 1, rng))
+                    k = n_rend if (len(mol['a']) <= 3 or not quick) else 1
+                    rends = ([{'starts': [0] * nf}] if (k > 1 or len(shares) % 2) else []) \
+                        + list(g2.covering_renderings(mol, part, max(k - 1, 0 if len(shares) % 2 else 1), rng))
                     for i, r in enumerate(rends):
                         orders = _orders(nf, rng)
-                        if not (i == 0 and len(mol['a']) <= 3):
-                            orders = [orders[(i + len(shares)) % len(orders)]]
+                        if not (i == 0 and len(mol['a']) <= 3 and (not quick or all(a[0] == 'C' for a in mol['a']))):
+                            j = (i + len(shares) + len(mol['b'])) % len(orders)
+                            orders = [orders[j]] if (i or len(mol['a']) > 3) else [orders[j], orders[(j + 3) % len(orders)]]
                         for o in orders:
                             rr = dict(r)
                             rr['base'] = o
                             rr['ctor'] = 'string'
                             yield {'fam': 'A', 'mol': mol, 'part': part, 'shares': shares, 'tri': tri, 'r': rr}
-    n_part, n_sub = (6, 3) if quick else (30, 6)
+
+
+def _block_b(seed, n_part, n_sub):
     for smi, mol in g2.library():
         prng = random.Random(seed * 131 + sum(map(ord, smi)))
         for part in g2.sampled_partitions(mol, prng, n_part):
@@ -145,20 +147,52 @@ def cases(tier, seed):
                 yield {'fam': 'B', 'smiles': smi, 'mol': mol, 'part': part, 'shares': sorted(shares), 'tri': tri, 'r': r}
 
 
+def _block_c(rng):
+    """several shared atoms per fragment: ladders whose rails are joined by 2-4 bonds, every subset of them shared"""
+    for mol, part in g2.multi_cut_descriptions():
+        nf = max(part) + 1
+        for shares in share_assignments(mol, part):
+            if len(shares) < 2:
+                continue
+            r = next(g2.covering_renderings(mol, part, 1, rng))
+            r['base'] = list(range(nf)) if len(shares) % 2 else list(range(nf))[::-1]
+            yield {'fam': 'C', 'mol': mol, 'part': part, 'shares': shares, 'tri': False, 'r': r}
+
+
+def cases(tier, seed):
+    rng = random.Random(seed * 7368787 + 5)
+    quick = tier == 'quick'
+    mols = _blockA_mols(tier)
+    small = sorted([m for m in mols if len(m['a']) <= 3], key=lambda m: len(m['a']))
+    large = [m for m in mols if len(m['a']) > 3]
+    # smallest first: three atoms in three fragments is where the triangle lives; then the aromatic library,
+    # the ladders, then the four-atom molecules
+    yield from _block_a(small, rng, 2 if quick else 3, quick)
+    yield from _block_b(seed, *((6, 3) if quick else (30, 6)))
+    blk_c = list(_block_c(rng))
+    yield from (blk_c[::6] if quick else blk_c)
+    yield from _block_a(large, rng, 2 if quick else 3, quick)
+
+
 def classify(case, built, kind, exc=None):
-    """Narrow classes: F2 text pattern; one atom in >= 4 coarse nodes (stale one-level remap in squash_atoms);
-    pairwise marked copies (F15 self-merge); SyntaxError about aromaticity with a shared aromatic atom (stale hcount
-    of the kept copy); everything else generic."""
+    """Narrow classes (matched against known_findings.json only):
+    * F2 text pattern (descriptor behind `=1`);
+    * a shared atom is aromatic and the result is a kekulisation SyntaxError or a molecule that lost aromatic bonds:
+      the kept copy keeps its own `hcount` although it inherits the ring bonds (stale hcount);
+    * KeyError with one atom in >= 4 coarse nodes: one-level remap of repeated merges in squash_atoms;
+    * pairwise marked copies of one atom (F15 self-merge);
+    * everything else generic."""
     plan = built['plan']
     if base._F2.search(built['frag_str']):
         return 'resolve/descriptor-behind-ring-bond-symbol-and-digit/' + kind
+    arom_shared = any(len(m) > 1 and case['mol']['a'][a][2] for a, m in plan['member'].items())
+    if arom_shared and ((kind == 'resolver-exception' and exc == 'SyntaxError')
+                        or kind in ('wrong-molecule', 'wrong-hydrogens', 'differs-from-disjoint')):
+        return 'resolve/shared-aromatic-atom-stale-hcount/' + kind
     if kind == 'resolver-exception' and exc == 'KeyError' and max(len(m) for m in plan['member'].values()) >= 4:
         return 'resolve/atom-shared-by-four-or-more-nodes/' + kind
     if case.get('tri') and plan['n_pairs'] > plan['n_merge']:
         return 'resolve/one-atom-shared-by-three-mutually-adjacent-nodes/' + kind
-    if kind == 'resolver-exception' and exc == 'SyntaxError' and any(
-            len(m) > 1 and case['mol']['a'][a][2] for a, m in plan['member'].items()):
-        return 'resolve/shared-aromatic-atom-stale-hcount/' + kind
     return 'resolve/shared-atom/' + kind
 
 
